@@ -4,6 +4,7 @@ import (
 	"bufio"
 	"bytes"
 	"encoding/binary"
+	"encoding/json"
 	"errors"
 	"fmt"
 	"hash/crc32"
@@ -29,6 +30,20 @@ type Doc struct {
 
 func (d Doc) MarshalJSON() ([]byte, error) {
 	return []byte(fmt.Sprintf("[%q,%d,%d]", d.ID, d.UID, d.K)), nil
+}
+
+func (d *Doc) UnmarshalJSON(b []byte) error {
+	var raw []json.RawMessage
+	if err := json.Unmarshal(b, &raw); err != nil || len(raw) != 3 {
+		return fmt.Errorf("bad doc %s", b)
+	}
+	if err := json.Unmarshal(raw[0], &d.ID); err != nil {
+		return err
+	}
+	if err := json.Unmarshal(raw[1], &d.UID); err != nil {
+		return err
+	}
+	return json.Unmarshal(raw[2], &d.K)
 }
 
 // ProjectSegment reads the identity of every document of a segment from its
@@ -60,6 +75,7 @@ type Ent struct {
 	Docs []Doc    `json:"docs"`
 	Del  []uint32 `json:"del"` // 1-based positions, like the specification
 	Pers bool     `json:"pers"`
+	H    int      `json:"h"` // handle number of the loaded file (0 = in memory)
 }
 
 func bitmapPositions(b *roaring.Bitmap) []uint32 {
@@ -82,7 +98,11 @@ func (c *Ctl) ProjectSnapshot(s *index.Snapshot) (uint64, []Ent) {
 	segs := s.VerifSegs()
 	ents := make([]Ent, 0, len(segs))
 	for _, vs := range segs {
-		ents = append(ents, Ent{ID: vs.ID, Docs: ProjectSegment(vs.Segment), Del: bitmapPositions(vs.Deleted), Pers: vs.Persisted})
+		h := 0
+		if hc, ok := vs.Closer.(*handleCloser); ok {
+			h = hc.h
+		}
+		ents = append(ents, Ent{ID: vs.ID, Docs: ProjectSegment(vs.Segment), Del: bitmapPositions(vs.Deleted), Pers: vs.Persisted, H: h})
 	}
 	return s.VerifEpoch(), ents
 }
@@ -283,11 +303,15 @@ func (d *Dir) Persist(kind string, id uint64, w index.WriterTo, closeCh chan str
 	if stage != "" {
 		kv = append(kv, "stage", stage)
 	}
-	if err == nil {
+	if err == nil && d.Path == "" {
+		// the in-memory directory keeps segments only and nothing durable
+		kv = append(kv, "ents", []SnpEnt{}, "docs", []Doc{})
+	} else if err == nil {
 		if kind == index.ItemKindSnapshot {
 			ents, perr := ParseSnapshotFile(t.buf.Bytes())
 			if perr != nil {
 				kv = append(kv, "parse", perr.Error())
+				ents = []SnpEnt{}
 			}
 			kv = append(kv, "ents", ents)
 		} else if d.Plug != nil {
